@@ -826,4 +826,46 @@ theorem statOf_analyze_fold (d : Data) (hist : List Samples) (t : Nat) (st : Lis
     simp only [Option.some.injEq, Stat.mk.injEq, true_and]
     constructor <;> omega
 
+
+/-! ### `next(...)` in `make` never raises on consistent `ProfileData` -/
+
+/-- `transactions_by_method` is consistent with `method_parents`: a transaction uses `m` through one of
+    `m`'s parents — it is that parent, or it uses a sampled method which is that parent -/
+def tbmClosed (s : Samples) (d : Data) : Prop :=
+  ∀ m ∈ s.ms, ∀ t ∈ tbmOf d m.id, ∃ p ∈ parentsOf d m.id,
+    p = t ∨ ((∃ m' ∈ s.ms, m'.id = p) ∧ t ∈ tbmOf d p)
+
+theorem mem_lockedMethods (s : Samples) (d : Data) (i : Nat) :
+    i ∈ lockedMethods s d ↔
+      ∃ m ∈ s.ms, m.id = i ∧ (runningSet s d).elem i = false ∧ ∃ t ∈ tbmOf d i, (runningSet s d).elem t = true := by
+  unfold lockedMethods
+  simp only [List.mem_map, List.mem_filter, Bool.and_eq_true, Bool.not_eq_eq_eq_not, Bool.not_true,
+    List.any_eq_true]
+  constructor
+  · rintro ⟨m, ⟨hm, h1, h2⟩, rfl⟩
+    exact ⟨m, hm, rfl, h1, h2⟩
+  · rintro ⟨m, hm, rfl, h1, h2⟩
+    exact ⟨m, ⟨hm, h1, h2⟩, rfl⟩
+
+theorem makeRaises_false (s : Samples) (d : Data) (h : tbmClosed s d) : makeRaises s d = false := by
+  unfold makeRaises
+  rw [List.any_eq_false]
+  intro m hm hbad
+  simp only [Bool.and_eq_true, Bool.not_eq_eq_eq_not, Bool.not_true, Option.isNone_iff_eq_none] at hbad
+  obtain ⟨⟨_, hl⟩, hnone⟩ := hbad
+  have hl' : m.id ∈ lockedMethods s d := by simpa using hl
+  obtain ⟨m', hm', hid, _, t, ht, htr⟩ := (mem_lockedMethods s d m.id).1 hl'
+  obtain ⟨p, hp, hcase⟩ := h m hm t ht
+  unfold lockedCaller at hnone
+  rw [List.find?_eq_none] at hnone
+  have hp' := hnone p hp
+  simp only [Bool.or_eq_true, not_or, Bool.not_eq_true] at hp'
+  rcases hcase with rfl | ⟨⟨mp, hmp, hmpid⟩, htp⟩
+  · rw [htr] at hp'; exact absurd hp'.1 (by simp)
+  · have : p ∈ lockedMethods s d := by
+      rw [mem_lockedMethods]
+      exact ⟨mp, hmp, hmpid, hp'.1, t, htp, htr⟩
+    have : (lockedMethods s d).elem p = true := by simpa using this
+    rw [this] at hp'; exact absurd hp'.2 (by simp)
+
 end TxV.Profiler
